@@ -104,11 +104,13 @@ func (it *Iterator) Seek(target []byte) bool {
 	it.err = nil
 	it.initialized = true
 
-	// Find the block that might contain the key
-	// The index contains the first key of each block
-	if !it.indexIterator.Seek(target) {
-		// If seeking in the index fails, try the last block
-		it.indexIterator.SeekToLast()
+	// Find the block that might contain the key.
+	// The index contains the first key of each block, so that is the last
+	// block whose first key is <= target.
+	if !it.indexIterator.SeekForPrev(target) {
+		// The target sorts before every block: the first key >= target
+		// is the first key of the first block
+		it.indexIterator.SeekToFirst()
 		if !it.indexIterator.Valid() {
 			// No blocks in the SSTable
 			it.resetBlockIterator()
@@ -128,7 +130,8 @@ func (it *Iterator) Seek(target []byte) bool {
 		return true
 	}
 
-	// If we didn't find the key in this block, it might be in a later block
+	// Every key in this block is < target, so the first key >= target is
+	// the first key of the next block (if there is one)
 	return it.seekInNextBlocks()
 }
 
@@ -309,6 +312,11 @@ func (it *Iterator) seekInNextBlocks() bool {
 			foundValidKey = true
 			break
 		}
+	}
+
+	if !foundValidKey {
+		// Ran off the end of the table
+		it.resetBlockIterator()
 	}
 
 	return foundValidKey
